@@ -185,10 +185,15 @@ def _prog_body(case):
     except Exception as e:
         return Outcome("numpy_rejects", detail=str(e)[:100], sample=sample)
     g = values.direction(vseed, y0.shape, 53)
+    ckpt = case.chance(1, 3)  # the program wrapped in autograd.checkpoint (reverse mode only): second order must be unchanged
+    sample["checkpoint"] = ckpt
     phi_np = lambda x: onp.sum(g * progs.run(prog, x, onp))
-    phi_ag = lambda x: anp.sum(g * progs.run(prog, x, anp))
+    if ckpt:
+        phi_ag = lambda x: anp.sum(g * autograd.checkpoint(lambda t: progs.run(prog, t, anp))(x))
+    else:
+        phi_ag = lambda x: anp.sum(g * progs.run(prog, x, anp))
     out = second_order_check(phi_ag, phi_np, x0, onp.asarray(x0), vseed, 0.02, sample, lambda kind: f"C07|program|{kind}",
-                             json.dumps(prog), ["composition"])
+                             json.dumps([prog, ckpt]), ["composition"] + (["checkpoint"] if ckpt else []))
     if out.status != "ok":
         return out
     # the public HVP wrappers with a non-default argnum / extra arguments must give the same H u as make_vjp(grad)
